@@ -340,6 +340,18 @@ func monC11(h *Hist, o *TxnObs) {
 		had := pre != nil && hasPool(pre, staker)
 		r.Distinct(fmt.Sprintf("%s|%s|%s|had=%v|%s", fn, ptype, o.Outcome, had, o.Call.Mut))
 	}
+	if lockFns[fn] && pre != nil && pre.MaxDelegates > 0 && int64(len(pre.Pools)) >= pre.MaxDelegates {
+		// the provider's own limit is reached in the state before the lock (read from the state, not from the generator):
+		// only an existing delegate may still lock
+		who := "new_staker"
+		if hasPool(pre, staker) {
+			who = "existing_delegate"
+		}
+		h.C("C11", fmt.Sprintf("locks_into_full_pool:%s|%s|%s", ptype, who, o.Outcome))
+		if r != nil && pre.MaxDelegates <= 3 {
+			r.Distinct(fmt.Sprintf("full-pool|%s|limit=%d|%s|%s", ptype, pre.MaxDelegates, who, o.Outcome))
+		}
+	}
 	if o.Outcome == "failed" && unlockFns[fn] && pre != nil && hasPool(pre, staker) {
 		// "Unlocking pays back ... to its owner": an unlock may be refused for stated reasons (stake still covering offers, ...),
 		// but not with the claim that the owner has no delegate pool while the state holds one
